@@ -21,7 +21,8 @@ RULE = (
     "creadinto(n) for k,n in {0,1,2,3,to/over each file boundary, to EOF, past EOF}; every transition compared with a "
     "bytes model (returned data, byte count, cur_data_pos_stream). read_block: all (start,nsamps) incl. out-of-range, and "
     "all ordered pairs of in-range requests. Non-trivial = transition that crosses a file boundary, starts or ends at a "
-    "boundary/EOF, or an out-of-range request"
+    "boundary/EOF, or an out-of-range request. A scale lane runs every history seek(q,0); seek(p-q,1); read; cread(2); seek(-1,1); creadinto(3) over a "
+    "reduced alphabet (positions at/around every boundary, reads to/over every boundary, 65537 items) on five member files of 0.5-1 M items"
 )
 ASSUMPTIONS = [
     "the mutable state of FileReader is (ifile_cur, file_obj position); asserted from vars(reader) at start-up, any extra attribute is folded into the state key",
@@ -40,7 +41,10 @@ REQUIRED_OUTCOMES = [
     "seek1/ok",
     "read_block/ok",
     "read_block/out_of_range_raises",
+    "scale_lane/ok",
 ]
+
+SCALE_LENGTHS = [524288, 32, 960000, 755680, 32]
 
 EXPECTED_ATTRS = {"sinfo", "bitsinfo", "files", "mode", "opener", "ifile_cur", "file_obj"}
 
@@ -61,6 +65,9 @@ def shards(tier: str, seed: int) -> list:
     if tier == "thorough":
         for nbits in b["depths"]:
             out.append({"kind": "random", "nbits": nbits, "L": 12, "nhist": 300, "hlen": 50})
+    # scale lane: five member files of ordinary size (0.5-1 M items, two of them tiny); reduced alphabet, every (position, position, read) triple
+    for nbits in ((8, 2, 32) if tier == "quick" else b["depths"]):
+        out.append({"kind": "scale", "nbits": nbits, "lengths": SCALE_LENGTHS})
     return out
 
 
@@ -120,7 +127,7 @@ def _key(fr):
 
 class _Mismatch(Exception):
     def __init__(self, sig: dict, detail: str):
-        self.sig, self.detail = sig, detail
+        self.sig, self.detail = sig, detail if len(detail) < 2000 else detail[:2000] + " ..."
 
 
 def _apply(fr, op, M: bytes, p: int, nbits: int, fbounds: list[int], res, *, classify: bool):
@@ -398,9 +405,72 @@ def _random_histories(wd, shard, ctx, res):
         fr.close()
 
 
+def _scale_setup(wd, nbits, lengths, seed):
+    isz = _isz(nbits)
+    L = sum(lengths)
+    C = _nchans(nbits)
+    if nbits == 32:
+        X = (np.arange(L, dtype=np.float32) + 1.5).reshape(L, 1)
+    elif nbits == 16:
+        X = fx.label_data(L, 1, 16, seed)
+    else:
+        X = fx.label_data(L, C, nbits, seed)  # hashed values: no period that an offset error could hide in
+    M = fx.to_raw(X, nbits)
+    paths = fx.make_fileset(wd, X, nbits, list(lengths), stem="big")
+    fbounds = [int(b) * isz for b in np.cumsum(lengths)[:-1]]
+    return M, paths, fbounds
+
+
+def _scale_positions(L, isz, fbounds):
+    P = {0, isz, L - isz, 70000 * isz}
+    for b in fbounds:
+        P |= {b - isz, b, b + isz}
+    return sorted(x for x in P if 0 <= x < L)
+
+
+def _scale_reads(p, L, isz, fbounds):
+    ks = {1, 3, 65537}
+    for b in [*fbounds, L]:
+        if b >= p:
+            ks |= {(b - p) // isz, (b - p) // isz + 1}
+    for k in sorted(k for k in ks if k > 0):
+        yield ("cread", k)
+        yield ("creadinto", k * isz)
+
+
+def _scale(wd, shard, ctx, res, only=None):
+    """Depth-3 exploration over a reduced alphabet on files of ordinary size: seek(q,0); seek(p-q,1); read; then one more short read."""
+    nbits, lengths = shard["nbits"], shard["lengths"]
+    isz = _isz(nbits)
+    M, paths, fbounds = _scale_setup(wd, nbits, lengths, ctx.seed)
+    L = len(M)
+    P = _scale_positions(L, isz, fbounds)
+    Q = [0, fbounds[0], fbounds[2] + isz, L - isz]
+    cases = [[q, p, list(op)] for p in P for q in Q for op in _scale_reads(p, L, isz, fbounds)]
+    if only is not None:
+        cases = [only["scale"]]
+    for q, p, op in cases:
+        res.evaluations += 1
+        hist = [["seek0", q], ["seek1", p - q], op, ["cread", 2], ["seek1", -isz], ["creadinto", 3 * isz]]
+        fr = _fresh(paths, nbits)
+        pos = 0
+        try:
+            for j, o in enumerate(hist):
+                pos = _apply(fr, tuple(o), M, pos, nbits, fbounds, res, classify=(j == 2))
+                if pos is None:
+                    break
+            res.outcome("scale_lane/ok")
+        except _Mismatch as m:
+            res.violation(m.sig, {"shard": shard, "inner": {"scale": [q, p, op], "lengths": lengths}}, f"history {hist[: j + 1]}: {m.detail}")
+        finally:
+            fr.close()
+
+
 def run_shard(shard: dict, ctx, res, only=None) -> None:
     wd = ctx.workdir("c02")
     nbits = shard["nbits"]
+    if shard["kind"] == "scale":
+        return _scale(wd, shard, ctx, res, only)
     if only is not None:
         lengths = only["lengths"]
         if shard["kind"] == "stream":
